@@ -1,15 +1,20 @@
-import FtdcVerif.Lemmas.Hdr
+import FtdcVerif.Lemmas.HdrRank
 /-!
 # C13 — quantiles, merges, windows and snapshots agree with an exact oracle
 
 Proved here for every configuration and every list of recorded values: snapshots reproduce the
 histogram (`Import(Export(h)) = h`), counts never go negative, the total is the sum of the
 counts (so merging by re-recording representatives conserves counts: recorded + dropped).
-The order-statistic clauses (quantile = representative of the exact order statistic, monotone
-in q; Min/Max/Mean within the precision bound; merge = union; window = union of the last n
-windows) are decided on every run by the exact sorted-list oracle of the `hdr-stat` stream and
-by model/implementation agreement; their Lean statements are recorded below as `def … : Prop`
-and are not yet proved (partial, see DESIGN.md §6).
+The quantile clauses are proved for every configuration, every list of recorded values and every
+rank: the value at rank `r` is the histogram's representative of the exact order statistic of
+rank `r` (`quantile_is_order_statistic`, with the sorted list spelled out in
+`quantile_is_rth_smallest`), it is monotone in the rank (`quantile_monotone`) and within the
+precision bound of the order statistic (`quantile_within_precision`).  The proof goes through
+`Lemmas/HdrRank.lean`: the counts array is the multiplicity function of the accepted values under
+the index map, the index map is monotone, the iterator walks the indices in increasing order.
+Still decided only by the exact oracle of the `hdr-stat` stream and by model/implementation
+agreement (partial, see DESIGN.md §6): Min/Max/Mean, merge across different configurations,
+windows.
 -/
 namespace Ftdc.Props.C13
 open Ftdc.Hdr
@@ -44,14 +49,112 @@ theorem merge_step_conserves (acc : Hist × Int) (p : IterPos) (inv : Inv acc.1)
     simp only []
     exact ⟨by rw [t]; omega, i⟩
 
-/-- full statement (not yet proved): the value at rank r is the representative of the r-th
-smallest recorded value -/
-def quantile_is_order_statistic : Prop :=
-  ∀ (minV : Int) (maxV s : Nat) (vs : List Nat) (r : Nat), Valid minV maxV s → (∀ v ∈ vs, v ≤ maxV) →
-    1 ≤ r → r ≤ vs.length →
-    ∃ sorted : List Nat, sorted.Perm vs ∧ sorted.Pairwise (· ≤ ·) ∧
-      valueAtRank (recordAll (new minV maxV s) (vs.map Int.ofNat)) r =
-        highestEquiv (new minV maxV s) (sorted.getD (r - 1) 0)
+/-! ### quantiles are order statistics
+
+`ValueAtQuantile(q)` computes the rank `r = round(q·n/100)` in floating point (trusted) and returns
+the value at that rank; `valueAtRank` is the model of the rest. -/
+
+/-- what `New` builds is well-formed -/
+theorem new_wf' {minV : Int} {maxV s : Nat} (hv : Valid minV maxV s) : WF (new minV maxV s) := by
+  have := mkCfg_wf hv
+  exact ⟨this.1, this.2, this.3, this.4, this.5, this.6, this.7, this.8⟩
+
+/-- **The value at rank `r` is the histogram's representative of the exact order statistic of
+rank `r`**, for every configuration, every list of recorded `int64` values (rejected values are
+ignored, as `RecordValue` does) and every rank.  `IsOrderStat A r x` says: `x` is a recorded
+value, fewer than `r` recorded values are smaller and at least `r` are not larger. -/
+theorem quantile_is_order_statistic {minV : Int} {maxV s : Nat} (hv : Valid minV maxV s)
+    (vs : List Int) (h63 : ∀ v ∈ vs, v < 2 ^ 63) (r x : Nat)
+    (hos : IsOrderStat (accepted (new minV maxV s) vs) r x) :
+    valueAtRank (recordAll (new minV maxV s) vs) r = highestEquiv (new minV maxV s) x :=
+  valueAtRank_orderStat (new_wf' hv) rfl rfl vs h63 r x hos
+
+/-- in a sorted list, position `k` has at most `k` strictly smaller and at least `k+1` not larger elements -/
+theorem sorted_counts : ∀ (S : List Nat), S.Pairwise (· ≤ ·) → ∀ (k : Nat) (hk : k < S.length),
+    S.countP (fun a => decide (a < S[k])) ≤ k ∧ k + 1 ≤ S.countP (fun a => decide (a ≤ S[k]))
+  | [], _, k, hk => by simp at hk
+  | a :: t, hp, 0, _ => by
+    rw [List.pairwise_cons] at hp
+    simp only [List.getElem_cons_zero, List.countP_cons, Nat.lt_irrefl, decide_false, Nat.le_refl, decide_true]
+    constructor
+    · have : t.countP (fun b => decide (b < a)) = 0 := by
+        rw [List.countP_eq_zero]; intro b hb; have := hp.1 b hb; simp; omega
+      simp [this]
+    · simp
+  | a :: t, hp, k + 1, hk => by
+    rw [List.pairwise_cons] at hp
+    have hk' : k < t.length := by simpa using hk
+    obtain ⟨i1, i2⟩ := sorted_counts t hp.2 k hk'
+    have hle : a ≤ t[k] := hp.1 _ (List.getElem_mem hk')
+    simp only [List.getElem_cons_succ, List.countP_cons]
+    constructor
+    · split <;> omega
+    · simp [hle]; omega
+
+theorem sorted_mergeSort (A : List Nat) : (A.mergeSort (fun a b => decide (a ≤ b))).Pairwise (· ≤ ·) := by
+  have := List.pairwise_mergeSort (le := fun (a b : Nat) => decide (a ≤ b))
+    (by intro a b c; simp; omega) (by intro a b; simp; omega) A
+  exact this.imp (by intro a b; simp)
+
+/-- the `r`-th element of the sorted list is an order statistic of rank `r` -/
+theorem orderStat_sorted (A : List Nat) (r : Nat) (h1 : 1 ≤ r)
+    (hr : r ≤ (A.mergeSort (fun a b => decide (a ≤ b))).length) :
+    IsOrderStat A r ((A.mergeSort (fun a b => decide (a ≤ b)))[r - 1]'(by omega)) := by
+  have hperm := List.mergeSort_perm A (fun a b => decide (a ≤ b))
+  obtain ⟨c1, c2⟩ := sorted_counts _ (sorted_mergeSort A) (r - 1) (by omega)
+  refine ⟨hperm.mem_iff.1 (List.getElem_mem _), ?_, ?_⟩
+  · rw [← hperm.countP_eq]; omega
+  · rw [← hperm.countP_eq]; omega
+
+/-- the same statement with the sorted list spelled out: the value at rank `r` is the
+representative of the `r`-th smallest accepted value -/
+theorem quantile_is_rth_smallest {minV : Int} {maxV s : Nat} (hv : Valid minV maxV s)
+    (vs : List Int) (h63 : ∀ v ∈ vs, v < 2 ^ 63) (r : Nat) (h1 : 1 ≤ r)
+    (hr : r ≤ ((accepted (new minV maxV s) vs).mergeSort (fun a b => decide (a ≤ b))).length) :
+    valueAtRank (recordAll (new minV maxV s) vs) r =
+      highestEquiv (new minV maxV s)
+        (((accepted (new minV maxV s) vs).mergeSort (fun a b => decide (a ≤ b)))[r - 1]'(by omega)) :=
+  quantile_is_order_statistic hv vs h63 r _ (orderStat_sorted _ r h1 hr)
+
+/-- **quantiles are monotone in the rank** (hence in `q`) -/
+theorem quantile_monotone {minV : Int} {maxV s : Nat} (hv : Valid minV maxV s)
+    (vs : List Int) (h63 : ∀ v ∈ vs, v < 2 ^ 63) (r r' : Nat) (h1 : 1 ≤ r) (hrr : r ≤ r')
+    (hr : r' ≤ (accepted (new minV maxV s) vs).length) :
+    valueAtRank (recordAll (new minV maxV s) vs) r ≤ valueAtRank (recordAll (new minV maxV s) vs) r' := by
+  have hperm := List.mergeSort_perm (accepted (new minV maxV s) vs) (fun a b => decide (a ≤ b))
+  have hlen := hperm.length_eq
+  rw [quantile_is_rth_smallest hv vs h63 r h1 (by omega),
+    quantile_is_rth_smallest hv vs h63 r' (by omega) (by omega)]
+  have hmem := hperm.mem_iff.1 (List.getElem_mem (l := (accepted (new minV maxV s) vs).mergeSort (fun a b => decide (a ≤ b)))
+    (show r' - 1 < _ by omega))
+  apply highestEquiv_mono (new_wf' hv) _ (mem_accepted (new_wf' hv) h63 hmem)
+  rcases Nat.lt_or_ge (r - 1) (r' - 1) with hlt | hge
+  · exact (List.pairwise_iff_getElem.1 (sorted_mergeSort _)) (r - 1) (r' - 1) (by omega) (by omega) hlt
+  · have : r - 1 = r' - 1 := by omega
+    simp [this]
+
+/-- the representative is within the precision bound of the order statistic itself -/
+theorem quantile_within_precision {minV : Int} {maxV s : Nat} (hv : Valid minV maxV s)
+    (vs : List Int) (h63 : ∀ v ∈ vs, v < 2 ^ 63) (r x : Nat)
+    (hos : IsOrderStat (accepted (new minV maxV s) vs) r x) :
+    let q := valueAtRank (recordAll (new minV maxV s) vs) r
+    x ≤ q ∧ (q < x + 2 ^ (new minV maxV s).unitMag ∨ (q + 1 - x) * 10 ^ s ≤ x) := by
+  have wf := new_wf' hv
+  have hxc := mem_accepted wf h63 hos.1
+  simp only [quantile_is_order_statistic hv vs h63 r x hos]
+  have hr := value_in_range' wf hxc
+  have hw := width_bound' wf hxc
+  have hpos := size_pos' wf hxc
+  refine ⟨hr.2, ?_⟩
+  have hhi : highestEquiv (new minV maxV s) x = lowestEquiv (new minV maxV s) x + sizeOfRange (new minV maxV s) x - 1 := rfl
+  have hlo : lowestEquiv (new minV maxV s) x ≤ x := hr.1
+  rcases hw with hw | hw
+  · left; omega
+  · right
+    have hs : (new minV maxV s).sigfigs = s := rfl
+    rw [hs] at hw
+    refine Nat.le_trans (Nat.mul_le_mul_right _ ?_) hw
+    omega
 
 /-! non-vacuity -/
 example : import_ (export_ (recordAll (new 1 100 2) [5, 5, 99, 1000, -3])) =
